@@ -102,6 +102,7 @@ type loopInfo struct {
 
 type frame struct {
 	c        *Ctx
+	fnVariant0 Term // value of the function-level variant at entry (recursion)
 	fn       *ssa.Function
 	vals     map[ssa.Value]Val
 	edges    map[edgeKey]*estate
@@ -166,6 +167,13 @@ func newFrame(c *Ctx, fn *ssa.Function) *frame {
 					}
 				}
 			}
+		}
+	}
+	// named results and other locals kept in memory (e.g. because of a defer): the Alloc carries the
+	// variable's name even when no address-typed debug reference exists
+	for _, a := range fn.Locals {
+		if a.Comment != "" && f.debugAddr[a.Comment] == nil {
+			f.debugAddr[a.Comment] = a
 		}
 	}
 	return f
@@ -512,6 +520,11 @@ func (f *frame) runLoop(li *loopInfo, order []*ssa.BasicBlock) {
 		c.assumed[k] = true
 	}
 	// 3. havoc
+	type frameKey struct {
+		k, srt string
+		old    Term
+	}
+	var frameKeys []frameKey
 	var heap1 *heapState
 	if wholesale {
 		heap1 = c.newEpoch()
@@ -553,6 +566,17 @@ func (f *frame) runLoop(li *loopInfo, order []*ssa.BasicBlock) {
 				}
 				c.assume(Term{fmt.Sprintf("(forall ((%s Int)) (! (=> (and %s) (= (select %s %s) (select %s %s))) :pattern ((select %s %s))))",
 					q, strings.Join(conds, " "), nv.S, q, old.S, q, nv.S, q), SBool})
+			} else if k != allocKey && spec != nil && spec.FrameEntry && strings.HasPrefix(srt, "(Array Int ") && f.entry != nil {
+				// `loop k: frame entry`: the loop does not modify objects that existed at FUNCTION entry
+				// (it writes to memory allocated by the function only). Assumed for the havoced array
+				// here, proved at every back edge below.
+				c.nonFresh[k] = true
+				c.counter["q"]++
+				q := quote(fmt.Sprintf("q ref %d", c.counter["q"]))
+				old := c.heapGet(be.heap, k, srt)
+				c.assume(Term{fmt.Sprintf("(forall ((%s Int)) (! (=> (>= %s (- %s)) (= (select %s %s) (select %s %s))) :pattern ((select %s %s))))",
+					q, q, c.nalloc(f.entry).S, nv.S, q, old.S, q, nv.S, q), SBool})
+				frameKeys = append(frameKeys, frameKey{k, srt, old})
 			} else if k != allocKey {
 				c.nonFresh[k] = true
 			}
@@ -629,6 +653,13 @@ func (f *frame) runLoop(li *loopInfo, order []*ssa.BasicBlock) {
 		env := f.loopEnv(li, backVals, es.heap)
 		for j, inv := range spec.Invariants {
 			f.obligeClause("invariant-step", fmt.Sprintf("%s.inv%d@back%d", lname, j+1, k.from.Index), env, inv, es.cond, f.pos(lastPos(k.from)), false)
+		}
+		for _, fk := range frameKeys {
+			c.counter["q"]++
+			q := quote(fmt.Sprintf("q ref %d", c.counter["q"]))
+			cur := c.heapGet(es.heap, fk.k, fk.srt)
+			goal := Term{fmt.Sprintf("(forall ((%s Int)) (=> (>= %s (- %s)) (= (select %s %s) (select %s %s))))", q, q, c.nalloc(f.entry).S, cur.S, q, fk.old.S, q), SBool}
+			c.oblige("frame", fmt.Sprintf("%s.frame:%s@back%d", lname, frameKeyName(fk.k), k.from.Index), es.cond, goal, f.pos(lastPos(k.from)), "loop frame: objects that existed at function entry are unchanged ("+frameKeyName(fk.k)+")")
 		}
 		if spec.Decreases != nil {
 			if lx, ok := spec.Decreases.E.(*ECall); ok && lx.Fun == "lex" && len(lx.Args) == 2 {
